@@ -243,6 +243,7 @@ func (d *Discharger) discharge(groups [][]*Oblig) {
 	type job struct {
 		obs   []*Oblig
 		decls string
+		heavy bool
 	}
 	var jobs []job
 	const chunk = 400
@@ -267,14 +268,14 @@ func (d *Discharger) discharge(groups [][]*Oblig) {
 				byCtx[o.Decls] = append(byCtx[o.Decls], o)
 			}
 			for c, obs := range byCtx {
-				jobs = append(jobs, job{obs, declsText(c)})
+				jobs = append(jobs, job{obs, declsText(c), false})
 			}
 			continue
 		}
 		// quantified obligations get a solver process of their own (a slow one must not starve the others)
 		var light []*Oblig
 		for _, o := range g {
-			heavy := strings.Contains(o.Goal.S, "(forall ") || strings.Contains(o.Goal.S, "(exists ") || strings.Contains(o.Goal.S, "wf_v")
+			heavy := strings.Contains(o.Goal.S, "(forall ") || strings.Contains(o.Goal.S, "(exists ") || strings.Contains(o.Goal.S, "wf_v") || strings.Contains(o.Goal.S, "(str.++ ")
 			if !heavy {
 				for _, a := range o.Assumes {
 					if strings.Contains(a.S, "(forall ") || strings.Contains(a.S, "(exists ") {
@@ -284,7 +285,7 @@ func (d *Discharger) discharge(groups [][]*Oblig) {
 				}
 			}
 			if heavy && o.Template == nil {
-				jobs = append(jobs, job{[]*Oblig{o}, decls})
+				jobs = append(jobs, job{[]*Oblig{o}, decls, true})
 			} else {
 				light = append(light, o)
 			}
@@ -294,7 +295,7 @@ func (d *Discharger) discharge(groups [][]*Oblig) {
 			if j > len(light) {
 				j = len(light)
 			}
-			jobs = append(jobs, job{light[i:j], decls})
+			jobs = append(jobs, job{light[i:j], decls, false})
 		}
 	}
 	ctx := context.Background()
@@ -346,6 +347,22 @@ func (d *Discharger) discharge(groups [][]*Oblig) {
 		go func(jb job) {
 			defer wg.Done()
 			defer func() { <-sem }()
+			if jb.heavy && len(jb.obs) == 1 {
+				// quick attempt on the primary solver, then the whole portfolio concurrently
+				o := jb.obs[0]
+				r, text := solveOne(ctx, solvers[d.Primary[0]], d.Prelude, o, 4000, d.Dir, d.Stats)
+				if r == "unsat" || r == "sat" {
+					o.Result, o.Solver = r, solvers[d.Primary[0]].Name
+					if r == "sat" {
+						o.Model = text
+					}
+					if o.ok() {
+						return
+					}
+				}
+				d.race(ctx, o)
+				return
+			}
 			runBatch(ctx, solvers[d.Primary[0]], d.Prelude, jb.decls, jb.obs, d.TimeoutMs, d.Dir, d.Stats)
 			if d.SecondGround != "" && len(jb.obs) > 0 && jb.obs[0].Template != nil {
 				// independent Float64 implementation must agree
@@ -392,30 +409,7 @@ func (d *Discharger) discharge(groups [][]*Oblig) {
 			if o.Result == "disagree" {
 				return
 			}
-			for _, sn := range d.Primary {
-				r, text := solveOne(ctx, solvers[sn], d.Prelude, o, d.TimeoutMs*2, d.Dir, d.Stats)
-				if r == "unsat" || r == "sat" {
-					o.Result = r
-					o.Solver = solvers[sn].Name
-					if r == "sat" {
-						o.Model = text
-					}
-					if o.ok() {
-						return
-					}
-					if r == "sat" {
-						return
-					}
-				} else if o.Result == "" || o.Result == "noanswer" || o.Result == "error" {
-					o.Result = r
-					o.Solver = solvers[sn].Name
-					if len(text) < 2000 {
-						o.Note = strings.TrimSpace(text)
-					} else {
-						o.Note = strings.TrimSpace(text[:2000])
-					}
-				}
-			}
+			d.race(ctx, o)
 		}(o)
 	}
 	wg.Wait()
@@ -450,4 +444,45 @@ func templateDefs(obs []*Oblig) string {
 		}
 	}
 	return sb.String()
+}
+
+// race runs one obligation on all solvers of the portfolio concurrently; the first definite answer wins.
+func (d *Discharger) race(ctx context.Context, o *Oblig) {
+	type ans struct {
+		solver string
+		r      string
+		text   string
+	}
+	cctx, cancel := context.WithCancel(ctx)
+	defer cancel()
+	ch := make(chan ans, len(d.Primary))
+	for _, sn := range d.Primary {
+		go func(sn string) {
+			r, text := solveOne(cctx, solvers[sn], d.Prelude, o, d.TimeoutMs, d.Dir, d.Stats)
+			ch <- ans{sn, r, text}
+		}(sn)
+	}
+	var last ans
+	for range d.Primary {
+		a := <-ch
+		if a.r == "unsat" || a.r == "sat" {
+			// a cover obligation wants sat, a proof obligation wants unsat; a definite answer ends the race
+			o.Result = a.r
+			o.Solver = solvers[a.solver].Name
+			if a.r == "sat" {
+				o.Model = a.text
+			}
+			return
+		}
+		if last.r == "" || last.r == "noanswer" || last.r == "error" {
+			last = a
+		}
+	}
+	o.Result = last.r
+	o.Solver = solvers[last.solver].Name + " (+ others, no definite answer)"
+	if len(last.text) < 2000 {
+		o.Note = strings.TrimSpace(last.text)
+	} else {
+		o.Note = strings.TrimSpace(last.text[:2000])
+	}
 }
